@@ -238,6 +238,38 @@ def e2e(rep, tier, seed):
                     for cfg in cfgs:
                         cases.append({"text": text.decode("utf-8", "replace"), "config": cfg, "again": False, "lex": False})
                         meta.append((p["id"], kind, style, mark))
+    # anywhere inside a statement of a function body: a block comment at a random token boundary of a statement
+    lexed = dict(zip([p["id"] for p in P], common.run_vh_pool("lex", [{"text": p["text"]} for p in P], per_case_timeout=20)))
+    for p, nd in zip(P, nodes):
+        if not isinstance(nd, dict) or not nd.get("nodes") or not isinstance(lexed.get(p["id"]), list):
+            continue
+        if "rustfmt::skip" in p["text"] or "rustfmt_skip" in p["text"] or "macro_rules" in p["text"]:
+            continue
+        rnd = random.Random("in-" + p["id"])
+        b = p["text"].encode("utf-8")
+        # byte offsets of token starts
+        offs, o = [], 0
+        for k, t in lexed[p["id"]]:
+            offs.append((o, k, t))
+            o += len(t.encode("utf-8"))
+        stmts = [(lo, hi) for kind, lo, hi, parent in nd["nodes"] if kind == "stmt" and hi - lo >= 12]
+        for (lo, hi) in rnd.sample(stmts, min(6, len(stmts))):
+            inner = [(off, k, t) for (off, k, t) in offs if lo < off < hi and k not in ("ws", "lc", "bc") ]
+            if len(inner) < 2:
+                continue
+            off, k, t = rnd.choice(inner)
+            # not right after a `!` or `$` (macro call head / metavariable), not between `'` lifetimes and idents
+            prev = [x for x in offs if x[0] < off and x[1] not in ("ws",)]
+            if prev and prev[-1][2] in ("!", "$", "#", "'"):
+                continue
+            stext = b[lo:hi].decode("utf-8", "replace")
+            if "!" in stext:
+                continue          # inside macro calls the tokens are not statements of the function body
+            nin = len(cases)
+            mark = "INS%dQ" % nin
+            text = b[:off] + ("/* %s */ " % mark).encode() + b[off:]
+            cases.append({"text": text.decode("utf-8", "replace"), "config": p["header"], "again": False, "lex": False})
+            meta.append((p["id"], "stmt", "inside", mark))
     # synthetic: a comment where no rewriter places one (between an operand and the operator), so that only the
     # safety net keeps it, preceded by literals whose quotes / comment openers the classifier must not misread
     LITS = ["'\"'", "b'\"'", "'\\''", "\"\\\"\"", "r#\"\"\"#", "'a'", "\"//\"", "\"/*\"", "'/'", "b\"*/\"", "'\\\\'"]
@@ -265,7 +297,7 @@ def e2e(rep, tier, seed):
                 found += 1
     rep.coverage["e2e_injections_judged"] = n
     rep.coverage["e2e_per_position"] = {"%s/%s" % k: v for k, v in sorted(per.items())}
-    rep.coverage["e2e_rule"] = "pool source programs (thorough: all; quick: the 1/%d selected by the seed) x up to 2 elements of each kind %s x {block comment before, line comment on its own line before, line comment / block comment at the end of the element's line} under the program's configuration and, alternating, style_edition 2024 or another max_width (30 / 50 / 70 / 140): the marker comment must appear exactly once in the output of every accepted run; plus 66 synthetic expressions with a comment only the safety net can keep, after char / byte / string / raw-string literals containing quotes and comment openers" % (MOD, E2E_KINDS)
+    rep.coverage["e2e_rule"] = "pool source programs (thorough: all; quick: the 1/%d selected by the seed) x up to 2 elements of each kind %s x {block comment before, line comment on its own line before, line comment / block comment at the end of the element's line} under the program's configuration and, alternating, style_edition 2024 or another max_width (30 / 50 / 70 / 140): the marker comment must appear exactly once in the output of every accepted run; a block comment at a random token boundary inside up to 6 statements per program (anywhere inside a statement of a function body); plus 66 synthetic expressions with a comment only the safety net can keep, after char / byte / string / raw-string literals containing quotes and comment openers" % (MOD, E2E_KINDS)
     return found
 
 
